@@ -31,6 +31,12 @@ import (
 //	            overwhelming probability (3 keys: all 60 traversals start in the same slot
 //	            class with probability (3/4)^60 < 1e-7).
 //
+//	mixed-keys  (c07_mixed.go) one Dict with keys of DIFFERENT KINDS - integer literals whose
+//	            numeric and textual orders disagree next to expressions, typed literals, floats,
+//	            strings, identifiers, Quals, composite literals - rendered 4..8 times per build,
+//	            6 builds; the oracle also decides that the keys come in ascending order of their
+//	            texts.
+//
 // Oracle: the history is rebuilt with fresh objects 8 times in this process and once in
 // each of 3 child processes (harness/child.go, props/xproc.go); every build must give the
 // same observations, byte for byte.
@@ -560,6 +566,14 @@ func c07Cases(sub int64, t string) []*Case {
 		c.Meta["xkey"] = fmt.Sprintf("p%d", i)
 		out = append(out, c)
 	}
+	// stream mixed-keys (c07_mixed.go), again with a PRNG of its own
+	rm := rand.New(rand.NewSource(sub ^ 0x3e7a11))
+	nm := tier(t, 300, 12000)
+	for i := 0; i < nm; i++ {
+		c := c07MixedCase(rm)
+		c.Meta["xkey"] = fmt.Sprintf("m%d", i)
+		out = append(out, c)
+	}
 	return out
 }
 
@@ -739,6 +753,12 @@ func (c07) Oracle(c *Case, got []hist.Obs) string {
 		// the recipes are valid files: a failed render would make the comparison vacuous
 		if o, ok := lastWrite(got); !ok || o.Kind != "write" {
 			return fmt.Sprintf("the recipe did not render: %v", got)
+		}
+	}
+	if c.Meta["mixed"] == true {
+		// stream mixed-keys (c07_mixed.go): key order and the renders of this one build
+		if m := c07MixedCheck(c, got); m != "" {
+			return m
 		}
 	}
 	builds, _ := c.Meta["builds"].(int)
